@@ -64,3 +64,56 @@ package failsafehttp
 //@   ensures [C18.response_ctx_live] !bodyErr && result_1 == nil && result_0 != nil ==> ncalls(cf) == 0 || cf == extfn("github.com/failsafe-go/failsafe-go/internal/util.noop")
 //@   havoc
 //@   modifies *
+
+// The re-creatable body: every attempt gets its own reader positioned at the start of the complete buffered body
+// (a reader shared between attempts would let overlapping attempts - hedges, abandoned timeouts - eat each other's bytes).
+//@ extfunc bytes.NewReader
+//@   returnsfresh
+//@   modifies nothing
+//@   ensures result != nil && fresh(result) && uf("readerlen", result) == len(b)
+//@ extfunc bytes.(*Buffer).Bytes
+//@   modifies nothing
+//@ extfunc io.ReadSeeker.Seek
+//@   modifies nothing
+
+//@ func bodyReader$1
+//@   ensures [C18.body.buffer_fresh_reader] result_1 == nil && result_0 != nil && fresh(payload(result_0))
+//@   havoc
+//@   modifies calls(extfn("bytes.(*Buffer).Bytes"))
+
+//@ func bodyReader$2
+//@   ensures [C18.body.bytes_fresh_reader] result_1 == nil && result_0 != nil && fresh(payload(result_0)) && uf("readerlen", payload(result_0)) == len(buf)
+//@   modifies nothing
+
+//@ func bodyReader$3
+//@   requires body != nil
+//@   ensures [C18.body.seekable_rewound] ncalls(body.Seek) == 1 && arg(body.Seek, 1, 0) == 0 && arg(body.Seek, 1, 1) == 0 && result_1 == reti(body.Seek, 1, 1) && uf("wraps", result_0) == body
+//@   modifies calls(body.Seek)
+
+//@ func bodyReader$4
+//@   ensures [C18.body.stream_fresh_reader] result_1 == nil && result_0 != nil && (len(buf) > 0 ==> fresh(payload(result_0)) && uf("readerlen", payload(result_0)) == len(buf))
+//@   modifies nothing
+
+// which re-creation strategy a body kind gets: none for nil, a fresh in-memory reader per attempt for buffers and
+// plain streams (read to the end once, up front), a rewind for seekable streams
+// (results are indexed by scalar leaf: the []byte is leaves 0 and 1, the error is leaf 2)
+//@ extfunc io.ReadAll
+//@   recorded
+//@   modifies nothing
+//@ func bodyReader
+//@   ensures [C18.body.none] untypedBody == nil ==> result_0 == nil && result_1 == nil
+//@   ensures [C18.body.buffer] typeis(untypedBody, *bytes.Buffer) ==> result_1 == nil && clofn(result_0) == fnid("bodyReader$1")
+//@   ensures [C18.body.bytes_reader] typeis(untypedBody, *bytes.Reader) && reti(extfn("io.ReadAll"), 1, 2) == nil ==> result_1 == nil && clofn(result_0) == fnid("bodyReader$2")
+//@   ensures [C18.body.read_error] typeis(untypedBody, *bytes.Reader) && reti(extfn("io.ReadAll"), 1, 2) != nil ==> result_0 == nil && result_1 == reti(extfn("io.ReadAll"), 1, 2)
+//@   havoc
+//@   modifies calls(extfn("io.ReadAll")), calls(extfn("fmt.Errorf"))
+
+// the whole call: the body strategy is chosen once, before the first attempt, and the executor's outcome is returned as is
+//@ func doRequest
+//@   requires request != nil && executor != nil
+//@   oncall bodyReader: bf := callresult_0; berr := callresult_1
+//@   ensures [C18.request.body_error] berr != nil ==> result_0 == nil && result_1 == berr && ncalls(executor.GetWithExecution) == 0
+//@   ensures [C18.request.executor_outcome] berr == nil ==> ncalls(executor.GetWithExecution) == 1 && result_0 == ret(executor.GetWithExecution, 1, 0) && result_1 == reti(executor.GetWithExecution, 1, 1)
+//@   ensures [C18.request.attempt_closure] berr == nil ==> clofn(arg(executor.GetWithExecution, 1, 0)) == fnid("doRequest$1")
+//@   havoc
+//@   modifies *
